@@ -238,7 +238,8 @@ def run_check(prop, tier):
           % (prop, tier, seed, jobs, n_total, max_s, boot.REPO, engine.NAME), flush=True)
 
     keep = set(range(0, n_total, max(1, n_total // 4)))      # a few samples for the evidence
-    det_idx = [i for i in range(n_total) if i % 50 == 7]     # 2 % determinism re-runs
+    det_step = max(2, min(50, n_total // 8))
+    det_idx = [i for i in range(n_total) if i % det_step == 1]     # >= 2 % determinism re-runs (in other worker tasks)
     results = {}
     redo = {}
     harness = []
